@@ -53,6 +53,299 @@ def guard_of(body, what):
     return " ".join(out), e
 
 
+# --------------------------------------------------------------------------- generic readers
+# The access pattern of the generic readers every command uses for snapshot and index files:
+# for each reader (and each of its variants) the sequence of backend events L (a listing of
+# the type: `.list(` / `.list_with_size(`) and R (a read of a file: `.read_full(` /
+# `.read_encrypted_full(`) in textual order, callees expanded.
+RDR_TOK = re.compile(
+    r"\.list_with_size\(|\.list\(|\.read_full\(|\.read_encrypted_full\(|"
+    r"\bget_file(?:::<[^>()]*>)?\(|\bstream_list(?:::<[^>()]*>)?\(|\bstream_all(?:::<[^>()]*>)?\(|"
+    r"\bfind_starts_with\(|\bfind_ids\(|\bfind_id\(|"
+    r"Self::(?:from_backend|latest_n|from_id|iter_all_from_backend|fill_missing|new_from_collector)\(")
+
+
+def fn_parts(src, name, nth=0):
+    """(signature, body) of the nth `fn name`, generics with nested <> allowed
+    (lib/rustscan.fn_body does not accept `fn f<T: AsRef<str>>(`)."""
+    ms = list(re.finditer(r"\bfn\s+%s\b" % re.escape(name), src))
+    ms = [m for m in ms if re.match(r"\s*[<(]", src[m.end():])]
+    if len(ms) <= nth:
+        raise ExtractError("fn %s not found" % name)
+    i = ms[nth].end()
+    while src[i].isspace(): i += 1
+    if src[i] == "<":
+        depth = 0
+        while True:
+            if src[i] == "<": depth += 1
+            elif src[i] == ">" and src[i - 1] != "-":
+                depth -= 1
+                if depth == 0: break
+            i += 1
+        i += 1
+    while src[i].isspace(): i += 1
+    if src[i] != "(":
+        raise ExtractError("fn %s: parameter list not found" % name)
+    pe = match_brace(src, i, "(", ")")
+    b = src.find("{", pe)
+    semi = src.find(";", pe)
+    if b < 0 or (0 <= semi < b):
+        raise ExtractError("fn %s has no body" % name)
+    return src[ms[nth].start():b], src[b + 1:match_brace(src, b)]
+
+
+def fnb(src, name, nth=0):
+    return fn_parts(src, name, nth)[1]
+
+
+def fn_body_sig(src, name, sig_has, what):
+    """body of the `fn name` whose signature contains `sig_has`"""
+    for nth in range(12):
+        try:
+            sg, body = fn_parts(src, name, nth)
+        except ExtractError:
+            break
+        if sig_has in " ".join(sg.split()):
+            return body
+    raise ExtractError("%s: fn %s with `%s` in its signature not found" % (what, name, sig_has))
+
+
+def block_after(text, start_pat, what):
+    m = re.search(start_pat, text)
+    if not m:
+        raise ExtractError(what + ": `%s` not found" % start_pat)
+    b = text.find("{", m.end() - 1)
+    e = match_brace(text, b)
+    return text[b + 1:e], e + 1
+
+
+SITE_TOK = re.compile(r"\.(get_file|stream_list|read_encrypted_full)(?:::<[^>()]*>)?\(")
+LISTING_TOK = re.compile(r"\.list\(|\.list_with_size\(|\bfind_ids?\(|\bfind_starts_with\(|\bstream_all(?:::<[^>()]*>)?\(")
+# the call sites of the un-listed file readers in crates/core/src (file, enclosing fn, reader,
+# 'listed' = a listing / listing reader occurs earlier in the same fn).  Pinned: a new site means a
+# command may read a snapshot / index file by an id it did not get from a listing -> review.
+EXPECTED_SITES = [
+    "backend/decrypt.rs:get_file:read_encrypted_full:explicit",
+    "backend/decrypt.rs:stream_all:stream_list:listed",
+    "backend/decrypt.rs:stream_list:get_file:explicit",
+    "commands/cat.rs:cat_file:read_encrypted_full:listed",
+    "commands/prune.rs:find_used_blobs:stream_list:listed",
+    "repofile/snapshotfile.rs:fill_missing:stream_list:explicit",
+    "repofile/snapshotfile.rs:from_backend:get_file:explicit",
+    "repository.rs:get_file:get_file:explicit",
+    "repository.rs:open_may_use_hot:get_file:listed",
+    "repository.rs:stream_files_list:stream_list:explicit",
+]
+
+
+def read_sites(repo):
+    import os
+    base = os.path.join(repo, "crates/core/src")
+    sites = []
+    for dp, dn, fns in os.walk(base):
+        if "verif_hooks" in dp:
+            continue
+        for f in sorted(fns):
+            if not f.endswith(".rs"):
+                continue
+            rel = os.path.relpath(os.path.join(dp, f), base)
+            src = strip_comments(open(os.path.join(dp, f)).read())
+            k = src.find("#[cfg(test)]")
+            if k >= 0 and "mod tests" in src[k:k + 200]:
+                src = src[:k]
+            for m in SITE_TOK.finditer(src):
+                fm = None
+                for fm in re.finditer(r"\bfn\s+(\w+)", src[:m.start()]):
+                    pass
+                if fm is None:
+                    continue
+                listed = LISTING_TOK.search(src[fm.start():m.start()]) is not None
+                sites.append("%s:%s:%s:%s" % (rel, fm.group(1), m.group(1), "listed" if listed else "explicit"))
+    return sorted(set(sites))
+
+
+def command_table(repo):
+    """which generic readers the four commands of the property (and their explicit-id variants) use for
+    snapshot and index files; each row is recognised in the body of the named function"""
+    bk = read(repo, "crates/core/src/commands/backup.rs")
+    pr = read(repo, "crates/core/src/commands/prune.rs")
+    ck = read(repo, "crates/core/src/commands/check.rs")
+    rp = read(repo, "crates/core/src/repository.rs")
+    def need(cond, what):
+        if not cond:
+            raise ExtractError("command table: " + what)
+    gp = " ".join(fnb(bk, "get_parent").split())
+    i_force, i_empty, i_latest, i_strs = gp.find("if self.force"), gp.find("else if self.parents.is_empty()"), gp.find("SnapshotFile::latest("), gp.find("SnapshotFile::from_strs(")
+    need(0 <= i_force < i_empty < i_latest < i_strs and "&self.parents" in gp[i_strs:i_strs + 120],
+         "ParentOptions::get_parent is no longer force / no parents -> SnapshotFile::latest / parents -> SnapshotFile::from_strs(&self.parents)")
+    need("GlobalIndex::only_full_trees(self.dbe()" in " ".join(fnb(rp, "to_indexed_ids").split()), "Repository::to_indexed_ids no longer reads the index with GlobalIndex::only_full_trees")
+    need("self.get_matching_snapshots(" in fnb(rp, "get_all_snapshots") and "self.update_matching_snapshots(" in fnb(rp, "get_matching_snapshots")
+         and "SnapshotFile::update_from_backend(self.dbe()" in fnb(rp, "update_matching_snapshots"), "Repository::get_all_snapshots no longer ends in SnapshotFile::update_from_backend")
+    need("self.update_snapshots(" in fnb(rp, "get_snapshots") and "SnapshotFile::update_from_ids(self.dbe()" in fnb(rp, "update_snapshots"),
+         "Repository::get_snapshots no longer ends in SnapshotFile::update_from_ids")
+    need("self.dbe().delete_list(true, ids.iter()" in " ".join(fnb(rp, "delete_snapshots").split()), "Repository::delete_snapshots no longer removes with the cacheable flag")
+    fu = " ".join(fnb(pr, "find_used_blobs").split())
+    a, b = fu.find(".list(FileType::Snapshot)?"), fu.find(".stream_list::<SnapshotFile>(list")
+    need(0 <= a < b, "prune::find_used_blobs no longer lists the snapshots before streaming them")
+    need("be.stream_all::<IndexFile>(" in fnb(pr, "from_prune_options") or "stream_all::<IndexFile>(" in pr, "prune no longer reads the index with stream_all")
+    need(".get_all_snapshots()?" in fnb(rp, "check"), "Repository::check no longer takes the trees from get_all_snapshots")
+    need("be.stream_all::<IndexFile>(" in fnb(ck, "check_packs"), "check_packs no longer reads the index with stream_all")
+    cr = " ".join(fnb(ck, "check_repository").split())
+    a, b = cr.find("raw_be.list_with_size(FileType::Snapshot)?"), cr.find("raw_be.read_full(file_type, &id)")
+    need(a < 0 or a < b, "check_repository: snapshot hash test reads before listing")
+    return [
+        ("CmdBackup", [("IndexOnlyFullTrees", "Index"), ("SnapLatest", "Snapshot")], "backup, parent = latest snapshot of the group"),
+        ("CmdBackupParentPrefix", [("IndexOnlyFullTrees", "Index"), ("SnapFromStrsPrefix", "Snapshot")], "backup, explicit parents, some id prefix"),
+        ("CmdBackupParentLatest", [("IndexOnlyFullTrees", "Index"), ("SnapFromStrsLatest", "Snapshot")], "backup, explicit parents, some latest[~N]"),
+        ("CmdBackupParentFullIds", [("IndexOnlyFullTrees", "Index"), ("SnapFromStrsIdsOnly", "Snapshot")], "backup, explicit parents, full ids only"),
+        ("CmdForgetAll", [("SnapUpdateFromBackend", "Snapshot")], "forget: get_all_snapshots, keep rules, delete_snapshots"),
+        ("CmdForgetPrefix", [("SnapUpdateFromIdsPrefix", "Snapshot")], "forget of snapshots named by id prefix: get_snapshots, delete_snapshots"),
+        ("CmdForgetFullIds", [("SnapUpdateFromIdsFull", "Snapshot")], "forget of snapshots named by full id"),
+        ("CmdPrune", [("StreamAll", "Index"), ("StreamAll", "Snapshot")], "prune: index by stream_all, snapshots by list + stream_list (find_used_blobs)"),
+        ("CmdCheck", [("SnapUpdateFromBackend", "Snapshot"), ("StreamAll", "Snapshot"), ("StreamAll", "Index")], "check: get_all_snapshots, snapshot hash test (list_with_size + read_full), check_packs"),
+    ]
+
+
+def reader_table(repo):
+    dec = read(repo, "crates/core/src/backend/decrypt.rs")
+    be = read(repo, "crates/core/src/backend.rs")
+    sn = read(repo, "crates/core/src/repofile/snapshotfile.rs")
+    ix = read(repo, "crates/core/src/index.rs")
+    cat = read(repo, "crates/core/src/commands/cat.rs")
+    rp = read(repo, "crates/core/src/repository.rs")
+    ca = read(repo, "crates/core/src/backend/cache.rs")
+    B = {
+        "get_file": fn_body_sig(dec, "get_file", "id: &F::Id", "DecryptReadBackend"),
+        "stream_all": fnb(dec, "stream_all"),
+        "stream_list": fnb(dec, "stream_list"),
+        "find_starts_with": fnb(be, "find_starts_with"),
+        "find_id": fnb(be, "find_id"),
+        "find_ids": fnb(be, "find_ids"),
+        "from_backend": fn_body_sig(sn, "from_backend", "id: &SnapshotId", "SnapshotFile"),
+        "from_str": fn_body_sig(sn, "from_str", "be: &B", "SnapshotFile"),
+        "from_strs": fn_body_sig(sn, "from_strs", "be: &B", "SnapshotFile"),
+        "latest": fn_body_sig(sn, "latest", "be: &B", "SnapshotFile"),
+        "latest_n": fn_body_sig(sn, "latest_n", "be: &B", "SnapshotFile"),
+        "from_id": fn_body_sig(sn, "from_id", "be: &B", "SnapshotFile"),
+        "update_from_ids": fnb(sn, "update_from_ids"),
+        "fill_missing": fnb(sn, "fill_missing"),
+        "iter_all_from_backend": fnb(sn, "iter_all_from_backend"),
+        "update_from_backend": fnb(sn, "update_from_backend"),
+        "new_from_collector": fnb(ix, "new_from_collector"),
+        "index_new": fn_body_sig(ix, "new", "be: &impl DecryptReadBackend", "GlobalIndex"),
+        "only_full_trees": fnb(ix, "only_full_trees"),
+        "cat_file": fnb(cat, "cat_file"),
+    }
+    # find_ids: all strings parse as full ids => returned as they are; otherwise find_starts_with
+    fi = B["find_ids"]
+    k = fi.find(".or_else(")
+    if k < 0 or ".parse()" not in fi[:k] or "find_starts_with" not in fi[k:] or RDR_TOK.search(fi[:k]):
+        raise ExtractError("FindInBackend::find_ids no longer has the shape parse-all .or_else(find_starts_with)")
+    # SnapshotFile::from_str: the three arms
+    m = re.search(r"SnapshotRequest::Latest\(n\)\s*=>(.*?),\s*SnapshotRequest::StartsWith\(id\)\s*=>(.*?),\s*SnapshotRequest::Id\(id\)\s*=>(.*?),?\s*\}",
+                  B["from_str"], re.S)
+    if not m:
+        raise ExtractError("SnapshotFile::from_str: the arms Latest / StartsWith / Id were not recognised")
+    arm_latest, arm_prefix, arm_id = m.group(1), m.group(2), m.group(3)
+    # the string of a StartsWith request is shorter than an id (so find_ids takes its listing branch)
+    rq = fn_body_sig(sn, "from_str", "s: &str", "SnapshotRequest")
+    if not re.search(r"if\s+s\.len\(\)\s*<\s*HEX_LEN\s*\{\s*Self::StartsWith\(", rq) or "Self::Id(s.parse()?)" not in rq:
+        raise ExtractError("SnapshotRequest::from_str: StartsWith is no longer exactly the strings shorter than an id")
+    # SnapshotFile::from_strs: no `latest` request (only prefixes and ids) / some `latest`
+    fs = B["from_strs"]
+    none_blk, e1 = block_after(fs, r"match\s+requests\.max_n_latest\s*\{\s*None\s*=>\s*\{", "SnapshotFile::from_strs")
+    some_blk, _ = block_after(fs[e1:], r"Some\(max_n\)\s*=>\s*\{", "SnapshotFile::from_strs")
+    mi = re.search(r"if\s+requests\.starts_with\.is_empty\(\)\s*\{", none_blk)
+    if not mi:
+        raise ExtractError("SnapshotFile::from_strs: `if requests.starts_with.is_empty()` not found")
+    then_e = match_brace(none_blk, mi.end() - 1)
+    me = re.match(r"\s*else\s*\{", none_blk[then_e + 1:])
+    if not me:
+        raise ExtractError("SnapshotFile::from_strs: else branch of the starts_with test not found")
+    else_b = then_e + 1 + me.end() - 1
+    else_e = match_brace(none_blk, else_b)
+    ids_only = none_blk[:mi.start()] + none_blk[mi.end():then_e] + none_blk[else_e + 1:]
+    with_prefix = none_blk[:mi.start()] + none_blk[else_b + 1:else_e] + none_blk[else_e + 1:]
+
+    memo = {}
+
+    def ev(text, ctx):
+        out = ""
+        for mm in RDR_TOK.finditer(text):
+            tk = mm.group(0)
+            if tk in (".list(", ".list_with_size("): out += "L"
+            elif tk in (".read_full(", ".read_encrypted_full("): out += "R"
+            else:
+                callee = re.sub(r"^Self::", "", re.sub(r"(::<[^>()]*>)?\($", "", tk))
+                out += call(callee, ctx)
+        return out
+
+    def call(name, ctx):
+        key = (name, ctx)
+        if key in memo:
+            if memo[key] is None:
+                raise ExtractError("recursive reader " + name)
+            return memo[key]
+        memo[key] = None
+        if name == "find_ids":
+            r = "" if ctx == "full" else ev(B["find_ids"], ctx)
+        elif name not in B:
+            raise ExtractError("reader calls unknown fn " + name)
+        else:
+            r = ev(B[name], ctx)
+        memo[key] = r
+        return r
+
+    rows = [
+        ("StreamAll", call("stream_all", "prefix"), "DecryptReadBackend::stream_all"),
+        ("StreamList", call("stream_list", "prefix"), "DecryptReadBackend::stream_list (ids supplied by the caller)"),
+        ("GetFile", call("get_file", "prefix"), "DecryptReadBackend::get_file (explicit id)"),
+        ("FindStartsWith", call("find_starts_with", "prefix"), "FindInBackend::find_starts_with"),
+        ("FindIdsFull", call("find_ids", "full"), "FindInBackend::find_ids / find_id, every string a full id"),
+        ("FindIdsPrefix", call("find_ids", "prefix"), "FindInBackend::find_ids / find_id, some string not a full id"),
+        ("SnapIterAll", call("iter_all_from_backend", "prefix"), "SnapshotFile::iter_all_from_backend"),
+        ("SnapLatest", call("latest", "prefix"), "SnapshotFile::latest / latest_n"),
+        ("SnapFromStrLatest", ev(arm_latest, "prefix"), "SnapshotFile::from_str(\"latest[~N]\")"),
+        ("SnapFromStrPrefix", ev(arm_prefix, "prefix"), "SnapshotFile::from_str(<id prefix>) -> from_id"),
+        ("SnapFromStrId", ev(arm_id, "full"), "SnapshotFile::from_str(<full id>) -> from_backend"),
+        ("SnapFromStrsLatest", ev(some_blk, "prefix"), "SnapshotFile::from_strs, some request is latest[~N]"),
+        ("SnapFromStrsPrefix", ev(with_prefix, "prefix"), "SnapshotFile::from_strs, no latest, some id prefix"),
+        ("SnapFromStrsIdsOnly", ev(ids_only, "full"), "SnapshotFile::from_strs, full ids only"),
+        ("SnapUpdateFromIdsFull", call("update_from_ids", "full"), "SnapshotFile::update_from_ids (Repository::get_snapshots), full ids only"),
+        ("SnapUpdateFromIdsPrefix", call("update_from_ids", "prefix"), "SnapshotFile::update_from_ids, some id prefix"),
+        ("SnapUpdateFromBackend", call("update_from_backend", "prefix"), "SnapshotFile::update_from_backend (Repository::get_all_snapshots)"),
+        ("IndexNew", call("index_new", "prefix"), "GlobalIndex::new"),
+        ("IndexOnlyFullTrees", call("only_full_trees", "prefix"), "GlobalIndex::only_full_trees"),
+        ("CatFileFull", call("cat_file", "full"), "commands::cat::cat_file(<full id>)"),
+        ("CatFilePrefix", call("cat_file", "prefix"), "commands::cat::cat_file(<id prefix>)"),
+    ]
+    # ---- does an id-only listing through the handle of the repository reach the cache clean-up?
+    # trait default ReadBackend::list = list_with_size; DecryptBackend::list and Arc<dyn WriteBackend>::list forward
+    # to the wrapped `list`; CachedBackend has no `list` of its own (or one that calls its list_with_size);
+    # Repository::open wraps the backend in the CachedBackend before the DecryptBackend is built.
+    if ".list_with_size(tpe)" not in " ".join(fnb(be, "list").split()):
+        raise ExtractError("ReadBackend::list (trait default) no longer calls list_with_size")
+    i0 = dec.find("ReadBackend for DecryptBackend")
+    if i0 < 0:
+        raise ExtractError("impl ReadBackend for DecryptBackend not found")
+    dl = re.search(r"\bfn\s+list\s*\(", dec[i0:])
+    if dl and "self.be.list(tpe)" not in fnb(dec[i0:], "list"):
+        raise ExtractError("DecryptBackend::list does not forward to self.be.list")
+    a0 = be.find("impl ReadBackend for Arc<dyn WriteBackend>")
+    if a0 < 0 or (re.search(r"\bfn\s+list\s*\(", be[a0:]) and "self.deref().list(tpe)" not in fnb(be[a0:], "list")):
+        raise ExtractError("Arc<dyn WriteBackend>::list does not forward to the wrapped list")
+    c0 = ca.find("impl ReadBackend for CachedBackend")
+    c1 = ca.find("impl WriteBackend for CachedBackend")
+    own = re.search(r"\bfn\s+list\s*\(", ca[c0:c1])
+    reaches = True
+    if own:
+        reaches = "self.list_with_size(" in fnb(ca[c0:c1], "list")
+    w1, w2 = rp.find("CachedBackend::new_cache(self.be.clone()"), rp.find("DecryptBackend::new(self.be.clone()")
+    if not (0 <= w1 < w2):
+        raise ExtractError("Repository::open: the DecryptBackend is no longer built over the CachedBackend")
+    return rows, reaches
+
+
 def gen(repo):
     be = read(repo, "crates/core/src/backend.rs")
     bl = read(repo, "crates/core/src/blob.rs")
@@ -137,7 +430,35 @@ def gen(repo):
     out.append("Definition early_exit : bool := %s." % ("true" if early_exit else "false"))
     out.append("(* Cache::list_with_size: %s *)" % ("only files at <dirname>/<hex[0..2]>/<hex>" if canonical_only else "every 64-hex file below <dirname>/"))
     out.append("Definition lists_strays : bool := %s." % ("false" if canonical_only else "true"))
-    meta = {"lists_strays": not canonical_only, "file_type_cacheable": ft, "blob_type_cacheable": bt, "guards": {k: v[1] for k, v in guards.items()},
+    rows, reaches = reader_table(repo)
+    sites = read_sites(repo)
+    # check: index read + pack listing (check_packs), then the pack clean-up of the cache, then the tree walk
+    ck = " ".join(fnb(read(repo, "crates/core/src/commands/check.rs"), "check_repository").split())
+    p1, p2, p3 = ck.find("check_packs("), ck.find("cache.remove_not_in_list(FileType::Pack, &ids)"), ck.find("check_trees(")
+    if not (0 <= p1 < p2 < p3) or "index_collector .tree_packs()" not in ck.replace("index_collector.tree_packs()", "index_collector .tree_packs()"):
+        raise ExtractError("check_repository: order check_packs -> cache.remove_not_in_list(Pack, tree packs of the index) -> check_trees changed")
+    if not re.search(r"for file_type in \[FileType::Snapshot, FileType::Index\] \{ _ = be\.list_with_size\(file_type\)\?;", ck):
+        raise ExtractError("check_repository: listing of snapshots and index files before the cache comparison changed")
+    if sites != EXPECTED_SITES:
+        raise ExtractError("call sites of the un-listed file readers changed: new %r, gone %r" %
+                           (sorted(set(sites) - set(EXPECTED_SITES)), sorted(set(EXPECTED_SITES) - set(sites))))
+    out.append("")
+    out.append("(* Access pattern of the generic readers (events in program order, callees expanded: L = the reader")
+    out.append("   lists the file type through ReadBackend::list / list_with_size, R = it reads a file). *)")
+    for nme, evs, what in rows:
+        out.append("(* %-24s %-8s %s *)" % (nme, evs or "-", what))
+    out.append("Definition rdr_lists_first (r : rdr) : bool :=\n  match r with\n" +
+               "".join("  | %s => %s\n" % (nme, "true" if evs[:1] == "L" else "false") for nme, evs, _ in rows) + "  end.")
+    out.append("Definition rdr_reads (r : rdr) : bool :=\n  match r with\n" +
+               "".join("  | %s => %s\n" % (nme, "true" if "R" in evs else "false") for nme, evs, _ in rows) + "  end.")
+    cmds = command_table(repo)
+    out.append("(* the generic readers each command uses for snapshot and index files (recognised in the command bodies) *)")
+    out.append("Definition cmd_readers (c : cmd) : list (rdr * ftype) :=\n  match c with\n" +
+               "".join("  | %s => [%s]  (* %s *)\n" % (n, "; ".join("(%s, %s)" % rt for rt in rows_), w) for n, rows_, w in cmds) + "  end.")
+    out.append("(* an id-only listing (ReadBackend::list) through DecryptBackend -> Arc<dyn WriteBackend> -> CachedBackend")
+    out.append("   ends in CachedBackend::list_with_size, i.e. runs the cache clean-up *)")
+    out.append("Definition list_reaches_cleanup : bool := %s." % ("true" if reaches else "false"))
+    meta = {"command_readers": {n: ["%s/%s" % rt for rt in rows_] for n, rows_, _ in cmds}, "unlisted_reader_call_sites": sites, "readers": {nme: evs for nme, evs, _ in rows}, "list_reaches_cleanup": reaches, "lists_strays": not canonical_only, "file_type_cacheable": ft, "blob_type_cacheable": bt, "guards": {k: v[1] for k, v in guards.items()},
             "early_exit": early_exit, "dirnames": names}
     return "\n".join(out) + "\n", meta
 
